@@ -263,7 +263,7 @@ def corpus_cases(entries):
 
 
 # ------------------------------------------------------------------------------------------------- proof half
-PARSERS = ["binpatch_load", "zip_cd", "apk_prefixed", "apk_sigblock", "pe_opthdr", "xap_trailer", "csblob_super", "pe_certtable"]
+PARSERS = ["binpatch_load", "zip_cd", "apk_signers", "apk_signed_data", "apk_v2", "xap_trailer", "csblob_super"]
 
 
 def proof_half(ctx, st, cov):
@@ -276,7 +276,7 @@ def proof_half(ctx, st, cov):
     cov["model_cases"] = len(cases)
     if not st["model_ok"]:
         return
-    vals = [[PARSERS.index(c["parser"]), Hex(c["input"]), c.get("arg", 0)] for c in cases]
+    vals = [[PARSERS.index(c["parser"]), Hex(c["input"]), list(c.get("args") or [])] for c in cases]
     try:
         res = ctx.run_model(vals)
     except RuntimeError as e:
@@ -284,10 +284,11 @@ def proof_half(ctx, st, cov):
         return
     mism, spec_fail, dist = [], [], {}
     for c, r in zip(cases, res):
-        mclass, mvals, sclass = r[0], r[1], r[2]
+        mclass, mvals, sclass, merr = r[0], r[1], r[2], r[3]
         oclass = {"ok": 0, "error": 1, "panic": 2}[c["class"]]
-        dist["%s/%s" % (c["parser"], c["class"])] = dist.get("%s/%s" % (c["parser"], c["class"]), 0) + 1
-        if mclass != oclass or (oclass == 0 and c.get("vals") is not None and list(mvals) != list(c["vals"])):
+        dk = "%s/%s/%s" % (c["parser"], c["class"], c.get("errc", 0))
+        dist[dk] = dist.get(dk, 0) + 1
+        if mclass != oclass or (oclass == 0 and c.get("vals") is not None and list(mvals) != list(c["vals"])) or (oclass == 1 and merr != c.get("errc")):
             mism.append((c, r))
         # independent spec: a well-formed input (per the format specification) must be accepted; the spec never panics
         if sclass == 0 and oclass == 2:
@@ -303,8 +304,8 @@ def proof_half(ctx, st, cov):
         # does the disagreement violate the property?  Only if the real code panicked where the model says it would not,
         # and that panic is not one of the keyed defects (those are reported by the crash harness with their own keys).
         real_panics = [x for x, _ in mism if x["class"] == "panic"]
-        ctx.violation("C11:correspondence:" + c["parser"], "model and real parser disagree on %d inputs (first: parser=%s class real=%s model=%s vals real=%s model=%s)" %
-                      (len(mism), c["parser"], c["class"], r[0], c.get("vals"), r[1]), {"cases": [x for x, _ in mism[:5]], "broken": "correspondence C11.Run.run"},
+        ctx.violation("C11:correspondence:" + c["parser"], "model and real parser disagree on %d inputs (first: parser=%s kind=%s class real=%s/%s model=%s/%s vals real=%s model=%s)" %
+                      (len(mism), c["parser"], c.get("kind"), c["class"], c.get("errc"), r[0], r[3], c.get("vals"), r[1]), {"cases": [x for x, _ in mism[:5]], "broken": "correspondence C11.Run.run"},
                       bool(real_panics) and False)
 
 
@@ -444,5 +445,15 @@ def run(ctx, replay=None):
 
 
 # which entry points have a forall-bytes theorem (Properties.v) and which are only explored
-ENTRY_THEOREMS = {}
-CORPUS_ONLY = []
+ENTRY_THEOREMS = {
+    "binpatch.Load": "C11.Properties.load_no_panic",
+    "csblob.parseSuper": "C11.Properties.parse_super_no_panic",
+    "signxap.removeSignature": "C11.Properties.xap_remove_no_panic, xap_remove_range",
+    "apk.unmarshal / unmarshalR (any target type)": "C11.Properties.unmarshal_no_panic",
+    "apk.getSigBlock + pair loop of apk.verify + signer list parse": "C11.Properties.apk_v2_parse_no_panic",
+    "zipslicer.ReadWithDirectory (entry loop, end records)": "C11.Properties.zip_directory_no_panic, zip_entries_fuel",
+    "authenticode.DigestPowershell": "FmtPS.Properties.ps_hashin_no_panic (built and counted by the FMTPS unit, also part of C01/C02/C03/C05/C08)",
+    "authenticode.VerifyPowershell (up to the PKCS#7 parser)": "FmtPS.Properties.ps_extract_no_panic",
+}
+CORPUS_ONLY = ["comdoc reader / MSI digest", "cabfile.Digest", "authenticode PE digest / verify", "csblob code directory / requirements", "xar", "dmg", "machos",
+               "signjar manifest", "signappx", "vsix", "xmldsig / appmanifest", "signdeb / ar", "pgp", "rpm (go-rpmutils)", "pkcs7 / pkcs9", "certloader", "magic"]
